@@ -157,6 +157,13 @@ def abnormal(o):
 
 def oracle(case, out, baseline):
     """Returns a list of reasons why the property fails on this case (empty = holds)."""
+    try:
+        return oracle_(case, out, baseline)
+    except (KeyError, ValueError, IndexError) as e:
+        return ["driver output cannot be interpreted (%s: %s): %s" % (type(e).__name__, e, (out or "")[:200])]
+
+
+def oracle_(case, out, baseline):
     if abnormal(out):
         return ["memory error / abort in the library: %s" % (out or "")[:200]]
     r = parse_line(out)
@@ -268,10 +275,14 @@ def rand_op(rng, sent_hint, connected, big=False):
         return "a:%d" % rng.choice([0, 1, (sent_hint + rng.randrange(0, 6)) & MASK, (sent_hint - 1) & MASK, MASK, 1 << 40])
     if k < 0.79:
         return "i"
-    if k < 0.86:
+    if k < 0.85:
         return "o"
-    if k < 0.93:
+    if k < 0.91:
         return "y"
+    if k < 0.94:
+        return "d"
+    if k < 0.97:
+        return "c"
     return "q"
 
 
@@ -292,7 +303,7 @@ def gen_sessions(chk):
     cases = []
 
     def add(sent, handled, sid, sops, rops, kind):
-        cases.append(("S %d %d %s %s / %s" % (sent, handled, hx(sid), " ".join(sops), " ".join(rops)), kind))
+        cases.append((" ".join(["S", str(sent), str(handled), hx(sid)] + list(sops) + ["/"] + list(rops)), kind))
 
     ids = [b"", b"x", b"SMID", b"stream-id-0123456789abcdef", bytes(range(1, 256)), b"i" * 300, b"i" * 1024]
     # empty state, every boundary counter
@@ -321,10 +332,12 @@ def gen_sessions(chk):
         sops = [rand_op(rng, sent, True, big=thorough) for _ in range(rng.randrange(0, 14))]
         add(sent, rand_counter(rng), rng.choice(ids[:5]), sops, rand_rst_ops(rng, sent), "session-random")
     # big queues / big texts
-    for _ in range(12 if thorough else 3):
-        sops = ["s:" + hx(rand_text(rng)) for _ in range(300)]
-        sops.insert(150, "r:" + ",".join(["100000"] * 100))
-        add(rand_counter(rng), 5, b"big", sops, ["q", "y", "o", "c", "r:" + ",".join(["100000"] * 40), "q", "y", "o", "q"], "session-large")
+    # (the extracted model serialises in time quadratic in the queue length and does so at every callback)
+    nbig = 120 if thorough else 60
+    for _ in range(6 if thorough else 3):
+        sops = ["s:" + hx(rand_text(rng)) for _ in range(nbig)]
+        sops.insert(nbig // 2, "r:" + ",".join(["100000"] * (nbig // 3)))
+        add(rand_counter(rng), 5, b"big", sops, ["q", "y", "o", "c", "r:" + ",".join(["100000"] * 20), "q", "y", "o", "q"], "session-large")
     big = bytes(rng.choice(ALPHA) for _ in range(100000))
     add(1, 2, b"big", ["s:" + hx(big), "r:65536", "s:" + hx(big[:70000])], ["q", "c", "r:1,70000,100000", "q"], "session-large")
     # small-scope exhaustive: every operation sequence up to length L over a small alphabet on three restored states
@@ -391,7 +404,7 @@ def gen_blobs(chk, real_blobs):
 
     def add(b, kind, ops=None):
         ops = rng.choice(opsets) if ops is None else ops
-        cases.append(("B %s / %s" % (hx(b), " ".join(ops)), kind))
+        cases.append((" ".join(["B", hx(b), "/"] + list(ops)), kind))
 
     states = [
         (0, 0, b"", [], []),
@@ -501,9 +514,14 @@ def evaluate(chk, stream, cases, kinds, impl, model, baseline):
             chk.sample({"input": case, "impl": (impl[i] or "")[:600], "model_agrees": None if model is None else model[i] == impl[i]})
 
 
+def ops_of(case):
+    toks = case.split(" ")
+    return " ".join(toks[toks.index("/") + 1:])
+
+
 def baselines_for(cases):
-    ops = sorted({c.split(" / ", 1)[1] if " / " in c else "" for c in cases if c.startswith("B ")})
-    return ops, ["B - / " + o for o in ops]
+    ops = sorted({ops_of(c) for c in cases if c.startswith("B ")})
+    return ops, [("B - / " + o).rstrip() for o in ops]
 
 
 def run(chk):
@@ -511,7 +529,7 @@ def run(chk):
                 "lengths 0..100000; scripted partial writes; inbound <a/> and stanzas through the parser; drops), the blob handed "
                 "to the SM callback is restored into a fresh connection (exact-size heap copy), the restored object is dumped "
                 "(counters, id, queues, linkage walk) and driven by an operation sequence in parallel with a natively built twin; "
-                "queue shapes 0..6/20/64 unsent x 0..4/33 unacked, boundary counters, 300-element queues, 100 kB texts, every "
+                "queue shapes 0..6/20/64 unsent x 0..4/33 unacked, boundary counters, 60/120-element queues, 100 kB texts, every "
                 "operation sequence up to length 3 (quick) / 4 (thorough) over {qlen, drop oldest/youngest, connect, send, run "
                 "1 byte, run all} on three restored states.  Arbitrary input: for hand-made and real-session blobs every "
                 "truncation, extensions, every single edit of each tag / length / count / value field (0, +-1, 0x7fffffff, "
@@ -548,7 +566,9 @@ def run(chk):
     # pass 1: sessions
     sess = gen_sessions(chk)
     if corpus_failed:
-        sess = sess[:400]            # a defect is already pinned down; keep the run short
+        chk.rng.shuffle(sess)
+        sess = sess[:150]            # a defect is already pinned down; keep the run short (sanitizer reports are slow)
+    chk.rng.shuffle(sess)            # spread the expensive scenarios over the shards
     lines = [c for c, _ in sess]
     impl, model = both(lines)
     evaluate(chk, "session", lines, [k for _, k in sess], impl, model, baseline)
@@ -562,7 +582,9 @@ def run(chk):
     # pass 2: arbitrary input
     blobs = gen_blobs(chk, real)
     if corpus_failed:
-        blobs = blobs[:1500]
+        chk.rng.shuffle(blobs)
+        blobs = blobs[:400]
+    chk.rng.shuffle(blobs)
     lines = [c for c, _ in blobs]
     bops, blines = baselines_for(lines)
     bimpl, _ = both(blines)
@@ -583,8 +605,8 @@ def replay(path):
         print("replay file names no concrete input: %s" % json.dumps(rec.get("broken_obligations"))[:800])
         return 1
     exe = build_impl_driver()
-    ops = case.split(" / ", 1)[1] if " / " in case else ""
-    impl, base = vlib.run_lines(exe, [case, "B - / " + ops])
+    ops = ops_of(case)
+    impl, base = vlib.run_lines(exe, [case, ("B - / " + ops).rstrip()])
     try:
         model = vlib.run_lines(vlib.build_ocaml_model("C16"), [case])[0]
     except vlib.BuildError:
